@@ -63,6 +63,17 @@ BRUSH = os.path.join(BIN, "brush")
 DRV = os.path.join(LEAN, ".lake", "build", "bin", "drv")
 BASH = "/usr/bin/bash"
 NCPU = os.cpu_count() or 4
+# shape guards: a translator calls shape_guard(cond, msg) for a transcription check on hand-modelled code that is
+# NOT needed to regenerate a table; a failed one is reported as a note and widens the correspondence run
+SHAPE_NOTES = []
+
+
+def shape_guard(cond, msg):
+    if not cond:
+        SHAPE_NOTES.append(msg)
+    return bool(cond)
+
+
 ALLOWED_AXIOMS = {"propext", "Classical.choice", "Quot.sound"}
 FORBIDDEN = re.compile(
     r"\bsorry\b|\badmit\b|^\s*axiom\s|native_decide|bv_decide|implemented_by|\bunsafe\s|maxHeartbeats\s+0|@\[extern|@\[csimp")
@@ -424,19 +435,29 @@ class Ctx:
     def quick(self):
         return self.tier == "quick"
 
-    def size(self, q, t):
-        return q if self.quick else t
-
     # -- proof obligations ---------------------------------------------------------------------
+    def size(self, q, t):
+        # a shape guard that no longer matches widens this run's correspondence to the thorough sizes
+        return t if (not self.quick or getattr(self, "widen", False)) else q
+
     def proof_stage(self, extra_targets=(), gens=()):
         """Regenerate translators, build theorems + driver, audit. Records obligations."""
         prop = self.prop
+        del SHAPE_NOTES[:]
         for g in gens:
             try:
                 g()
             except Exception as ex:  # translator could not find / parse its item
                 self.obligations.append(("translator:%s" % getattr(g, "__name__", "gen"), False, str(ex)[:500]))
                 self.broken.append("translator:%s: %s" % (getattr(g, "__name__", "gen"), str(ex)[:300]))
+        if SHAPE_NOTES:
+            # not proof obligations: the generated tables were still extracted and the theorems are re-checked over
+            # them; the hand-written part of the model stays tied to the code by the correspondence run, which is
+            # widened to the thorough sizes for this run
+            self.widen = True
+            self.cov["shape_guards_changed"] = list(SHAPE_NOTES)
+            for n in SHAPE_NOTES:
+                log("NOTE: source shape changed (correspondence widened): %s" % n)
         global _DRV_COPY
         _DRV_COPY = None
         ok, out = lake_build(["BrushVerif.Props.%s" % prop, "drv"] + list(extra_targets))
